@@ -23,6 +23,7 @@ def run(ctx: Ctx):
     SC.batch_independence(ctx, "S1")
     SC.no_eos_mask_uses_its_own_extent(ctx, "S1")
     SC.lens_helper_total(ctx, "S1")
+    SC.tokens_compared_as_integers(ctx, "S1")
     oc = pkg.func("_string::optimal_completion")
     f = pkg.func("_string::hard_optimal_completion_distillation_loss")
     where = f"{rel}::{f.qualname}"
@@ -75,6 +76,36 @@ def run(ctx: Ctx):
         okR = pmx is not None and rt in (f"(~({pmx})).sum(2).clamp_min(1)".replace(" ", ""), f"(~({pmx})).sum(2).clamp(min=1)".replace(" ", ""),
                                           f"(~({pmx})).sum(2).clamp(1)".replace(" ", ""))
         okavg = okavg or (okL and okR)
+    # every divisor that counts mask entries can be zero (a prefix without targets, an element whose every prefix is padding):
+    # it must be clamped to at least one, or the mean is 0 / 0
+    unclamped = []
+    ncount = 0
+    for n in own_nodes(f.node):
+        if not (isinstance(n, ast.BinOp) and isinstance(n.op, ast.Div)):
+            continue
+        R_ = inl.expand(n.right)
+        counts = [c for c in ast.walk(R_) if isinstance(c, ast.Call) and isinstance(c.func, ast.Attribute) and c.func.attr == "sum"
+                  and pmx is not None and pmx in u(c.func.value)]
+        if not counts:
+            continue
+        ncount += 1
+        top = R_
+        okc = False
+        while isinstance(top, ast.Call) and isinstance(top.func, ast.Attribute):
+            if top.func.attr in ("clamp_min", "clamp_min_") and top.args and u(top.args[0]) in ("1", "1.0"):
+                okc = True
+            if top.func.attr in ("clamp", "clamp_") and ((top.args and u(top.args[0]) in ("1", "1.0")) or any(k.arg == "min" and u(k.value) in ("1", "1.0") for k in top.keywords)):
+                okc = True
+            top = top.func.value
+        if isinstance(R_, ast.Call) and call_name(R_) in ("max", "torch.clamp_min", "torch.clamp") and any(u(a_) in ("1", "1.0") for a_ in list(R_.args)[1:] + [k.value for k in R_.keywords]):
+            okc = True
+        if not okc:
+            unclamped.append(n)
+    col.floor("count_divisors", ncount, 2)
+    col.ob("G12", "S2", f"{where}::count-divisors-are-at-least-one", not unclamped,
+           f"`{u(unclamped[0])[:100] if unclamped else ''}` divides by a number of non-padding entries that is 0 for a prefix (or a whole "
+           f"sequence) without targets - e.g. an empty reference: the quotient is 0 / 0 = NaN and the mean over the batch is NaN", rel,
+           unclamped[0].lineno if unclamped else f.line, sample=ncount)
     col.ob("G16", "S2", f"{where}::average-over-target-set", PM is not None and LV is not None and okavg,
            "the per-prefix loss is not (sum over non-padding targets) / max(number of targets, 1)", rel, f.line)
     R_enum.g8_dispatch(pkg, res, col, f, "reduction", "S2", members=["mean", "sum", "none"], allow_else=0)
